@@ -230,7 +230,7 @@ func illFormed(r *rand.Rand) (string, string) {
 	recv := "receivers:\n  - name: r0\n  - name: r1\n"
 	extra := ""
 	what := ""
-	switch r.Intn(12) {
+	switch r.Intn(13) {
 	case 0:
 		spec.Receiver, what = "", "root without receiver"
 	case 1:
@@ -258,6 +258,15 @@ func illFormed(r *rand.Rand) (string, string) {
 		gb := gen.Pick(r, [][]string{{"a", "a"}, {"...", "a"}, {"a", "..."}, {"a", "b", "a"}})
 		spec.Routes = append(spec.Routes, &model.RouteSpec{Receiver: "r0", GroupBy: &gb})
 		what = fmt.Sprintf("bad group_by %v", gb)
+	case 11:
+		// a null entry in a routes list (at the top or one level down), otherwise valid, with a time interval in use
+		y := "route:\n" + spec.YAML("  ")
+		extra = "time_intervals:\n  - name: ti\n    time_intervals:\n      - weekdays: ['monday']\n"
+		nullAt := gen.Pick(r, []string{"  routes:\n    - receiver: r0\n      mute_time_intervals: [ti]\n    - ~\n", "  routes:\n    - receiver: r1\n      routes:\n        - null\n        - receiver: r0\n"})
+		if i := strings.Index(y, "  routes:\n"); i >= 0 {
+			y = y[:i]
+		}
+		return y + nullAt + recv + extra, "null entry in a routes list"
 	default:
 		z := time.Duration(0)
 		if r.Intn(2) == 0 {
@@ -320,6 +329,12 @@ func TestTotalityAndWellFormedness(t *testing.T) {
 		if p := consumers(res.cfg); p != "" {
 			w["problem"] = p
 			sub.Violation("accepted-configuration-breaks-a-consumer", w)
+		}
+		// the printed form (secrets replaced by <secret>) is what the status API serves and users paste
+		// back: loading it may be rejected, but must not panic either
+		if back := safeLoad(res.cfg.String()); back.pan != nil {
+			w["panic"], w["where"], w["printed_form_loaded"] = fmt.Sprint(back.pan), back.where, res.cfg.String()
+			sub.Violation("config-load-panics("+back.where+")", w)
 		}
 	}
 	vf.Parallel(t, n, 16, func(t *testing.T, i int) {
@@ -410,6 +425,21 @@ func TestSecretsNeverPrinted(t *testing.T) {
 			sub.Violation("secret-value-printed-by-config-string", map[string]any{"planted": label, "leaked": leaks})
 		}
 		// print/load stability of the redacted text is not required (it contains <secret>)
+	}
+	// the printed form of valid configurations whose secret-typed URLs take part in validation rules
+	for _, y := range []string{
+		"route: {receiver: r}\nreceivers:\n- name: r\n  slack_configs:\n  - api_url: https://slack.com/api/chat.postMessage\n    update_message: true\n    channel: '#x'\n",
+		"global:\n  slack_api_url: https://slack.com/api/chat.postMessage\n  slack_app_token: tok\nroute: {receiver: r}\nreceivers:\n- name: r\n  slack_configs:\n  - channel: '#x'\n",
+	} {
+		res := safeLoad(y)
+		if res.pan != nil || res.err != nil || res.cfg == nil {
+			sub.Inconclusive(fmt.Sprintf("fixed slack configuration not accepted: %v %v", res.pan, res.err))
+			continue
+		}
+		if back := safeLoad(res.cfg.String()); back.pan != nil {
+			sub.Violation("config-load-panics("+back.where+")", map[string]any{"input": "printed form of: " + y, "printed": res.cfg.String(), "panic": fmt.Sprint(back.pan)})
+		}
+		sub.Count("printed_forms_loaded_back", 1)
 	}
 	check(nil, "all")
 	for i := range secretFields {
